@@ -14,7 +14,7 @@ ID = "C18"
 META = {
     "engine": "smallscope",
     "technique": "exhaustive small-scope enumeration of models x partial assignments / node subsets / connection maps, truth-table comparison",
-    "text": "For every model with <=3 variables and <=2 (quick) / <=3 (thorough) terms in every container and label scheme: subvalue with all 27 partial "
+    "text": "For every model with <=3 variables and <=2 (quick) / <=3 (thorough) terms in every container (incl. raw dicts with permuted keys and raw dicts / DictArithmetic objects whose keys repeat a label) and label scheme: subvalue with all 27 partial "
             "assignments over the domain plus off-domain numbers and a sympy symbol, subgraph with all 8 node subsets x every partial connection map of the outside variables "
             "(absent / either domain value, and None), in function and method form, and normalize (function and method) for two target values. "
             "Result type, table over the remaining variables, and argument immutability are checked.",
@@ -72,7 +72,8 @@ def check(case, st):
     deg = max((len(k) for k in D0), default=0)
     if len(D0) - (() in D0) >= 1:
         st.nontrivial += 1
-    conts = list(gen.SPIN_CONTAINERS if spin else gen.BOOL_CONTAINERS) + ["dictperm"]
+    # dictdup / DAdup: a plain dict / DictArithmetic whose keys repeat a label (what products of DictArithmetic objects look like)
+    conts = list(gen.SPIN_CONTAINERS if spin else gen.BOOL_CONTAINERS) + ["dictperm", "dictdup", "DAdup"]
     d0, d1 = (1, -1) if spin else (0, 1)
     for cont in conts:
         if cont in gen.DEG2 and deg > 2:
@@ -81,7 +82,13 @@ def check(case, st):
             D = gen.relabel(D0, sch, N)
             labels = gen.labels_for(sch, N)
             st.extra["models_built"] = st.extra.get("models_built", 0) + 1
-            M = {tuple(reversed(k)): v for k, v in D.items()} if cont == "dictperm" else gen.build(cont, D)
+            if cont in ("dictdup", "DAdup"):
+                if sch not in ("int", "str"):
+                    continue
+                D = {(k + (k[0],) if k else k): v for k, v in D.items()}      # x_a x_b x_a: literal products, the reference multiplies per occurrence
+                M = dict(D) if cont == "dictdup" else qv.utils.DictArithmetic(D)
+            else:
+                M = {tuple(reversed(k)): v for k, v in D.items()} if cont == "dictperm" else gen.build(cont, D)
             before = snap(M)
             ismodel = type(M) is not dict
 
@@ -93,6 +100,8 @@ def check(case, st):
             for combo in sub_menu(spin):
                 values = {}
                 numvalues = {}
+                if cont in ("dictdup", "DAdup") and not spin and any(v not in (None, 0, 1) for v in combo):
+                    continue      # a repeated boolean label with an off-domain value has no defined value (pubo_value treats labels as truth values)
                 if len(combo) > N:
                     values["label-not-in-model"] = 1
                     combo = combo[:N]
